@@ -35,7 +35,13 @@ FrameCellData(r) ==
      \A key \in DOMAIN r.filecd[n] : key \in DOMAIN r.cbcd[n] /\ SeqNear(r.filecd[n][key], r.cbcd[n][key], r.tol)
 FrameCellKeys(r) == \A n \in 1..Len(r.filecd) : \A k \in 1..Len(r.keys) : r.keys[k] \in DOMAIN r.filecd[n]
 \* exactly the documented data sets are written: the default ones iff their flag is on, plus the user's callbacks
-FrameKeysExact(r) == \A n \in 1..Len(r.cdkeys) : ToSet(r.cdkeys[n]) = ToSet(r.expectcd) /\ ToSet(r.pdkeys[n]) = ToSet(r.expectpd)
+\* (documented default data sets: present iff their flag is on; the user's data sets: present.  A data set the documentation of
+\* this snapshot does not know is not judged here -- FrameKeysNoExtras, reported as specification drift only)
+Documented == {"Deformation Gradient", "Principal Values of Logarithmic Strain", "Logarithmic Strain", "Displacement"}
+FrameKeysExact(r) == \A n \in 1..Len(r.cdkeys) :
+                        /\ ToSet(r.expectcd) \subseteq ToSet(r.cdkeys[n]) /\ (ToSet(r.cdkeys[n]) \cap Documented) \subseteq ToSet(r.expectcd)
+                        /\ ToSet(r.expectpd) \subseteq ToSet(r.pdkeys[n]) /\ (ToSet(r.pdkeys[n]) \cap Documented) \subseteq ToSet(r.expectpd)
+FrameKeysNoExtras(r) == \A n \in 1..Len(r.cdkeys) : ToSet(r.cdkeys[n]) = ToSet(r.expectcd) /\ ToSet(r.pdkeys[n]) = ToSet(r.expectpd)
 FrameCustomData(r) ==
   \A n \in 1..Len(r.filepd) : n <= Len(r.cbpd) =>
      \A key \in DOMAIN r.cbpd[n] : key \in DOMAIN r.filepd[n] /\ SeqEq(r.filepd[n][key], r.cbpd[n][key])
@@ -46,14 +52,14 @@ SaveReaction(r) == SeqEq(r.fw, r.fr)
 
 Clauses(r) == CASE r.kind = "roundtrip" -> {"PaddedPoints", "CutPoints", "SameCells", "SameCellType"}
                 [] r.kind = "shared" -> {"SharedPoints"}
-                [] r.kind = "frames" -> {"FrameCount", "FrameOrder", "FrameDisplacement", "FrameCellData", "FrameCellKeys", "FrameCustomData", "FrameKeysExact"}
+                [] r.kind = "frames" -> {"FrameCount", "FrameOrder", "FrameDisplacement", "FrameCellData", "FrameCellKeys", "FrameCustomData", "FrameKeysExact", "FrameKeysNoExtras"}
                 [] r.kind = "save" -> {"SaveDisplacement", "SaveReaction"}
 Holds(c, r) == CASE c = "PaddedPoints" -> PaddedPoints(r) [] c = "CutPoints" -> CutPoints(r)
                  [] c = "SameCells" -> SameCells(r) [] c = "SameCellType" -> SameCellType(r)
                  [] c = "SharedPoints" -> SharedPoints(r)
                  [] c = "FrameCount" -> FrameCount(r) [] c = "FrameOrder" -> FrameOrder(r)
                  [] c = "FrameDisplacement" -> FrameDisplacement(r) [] c = "FrameCellData" -> FrameCellData(r)
-                 [] c = "FrameCellKeys" -> FrameCellKeys(r) [] c = "FrameCustomData" -> FrameCustomData(r) [] c = "FrameKeysExact" -> FrameKeysExact(r)
+                 [] c = "FrameCellKeys" -> FrameCellKeys(r) [] c = "FrameCustomData" -> FrameCustomData(r) [] c = "FrameKeysExact" -> FrameKeysExact(r) [] c = "FrameKeysNoExtras" -> FrameKeysNoExtras(r)
                  [] c = "SaveDisplacement" -> SaveDisplacement(r) [] c = "SaveReaction" -> SaveReaction(r)
 Applicable(r) == Clauses(r)
 Failing(r) == {c \in Clauses(r) : ~Holds(c, r)}
@@ -67,7 +73,8 @@ RefFR == [kind |-> "frames", expect |-> 2, times |-> <<0, 1>>, fileu |-> <<"aa",
           keys |-> <<"F">>, filecd |-> << [F |-> <<10, 20>>], [F |-> <<11, 21>>] >>, cbcd |-> << [F |-> <<10, 21>>], [F |-> <<11, 21>>] >>,
           filepd |-> << [my |-> <<One>>], [my |-> <<Z>>] >>, cbpd |-> << [my |-> <<One>>], [my |-> <<Z>>] >>,
           cdkeys |-> << <<"F">>, <<"F">> >>, pdkeys |-> << <<"Displacement", "my">>, <<"my", "Displacement">> >>, expectcd |-> <<"F">>, expectpd |-> <<"my", "Displacement">>]
-ASSUME Failing([RefFR EXCEPT !.expectcd = <<>>]) = {"FrameKeysExact"}
+ASSUME Failing([RefFR EXCEPT !.expectcd = <<>>]) = {"FrameKeysNoExtras"}
+ASSUME Failing([RefFR EXCEPT !.expectpd = <<"my">>]) = {"FrameKeysExact", "FrameKeysNoExtras"}
 ASSUME Failing(RefRT) = {} /\ Failing(RefFR) = {}
 ASSUME Failing([RefRT EXCEPT !.pr[3] = One]) = {"PaddedPoints"}
 ASSUME Failing([RefRT EXCEPT !.cr = <<1, 0>>]) = {"SameCells"}
